@@ -36,12 +36,15 @@ def check(repo, col, tier):
     col.rule("R-C10-sentinel", "padded index reaches a scatter only through mode='drop' + remap", 2)
     col.rule("R-C10-write-back", "write_trainables stores the simulated values", 4)
     col.rule("R-C10-pair", "trainable_params / indices_set_by_trainables change together", 3)
+    col.rule("R-C10-viewtrain", "a view shows / deletes its own half of the trainables", 5)
     col.rule("R-C10-tojax", "every simulation starts from the current tables", 4)
     cl = idx.compute_slots(repo, col, "R-C10-scatter", emit=("jaxedges", "pstate"))
     _rows(repo, col)
     scatter_sites(repo, col, cl, "R-C10-scatter", "R-C10-sentinel")
     _write_back(repo, col)
     _pair(repo, col)
+    view_trainables(repo, col, "R-C10-viewtrain")
+    filter_rows(repo, col, "R-C10-viewtrain")
     _tojax(repo, col)
     # a group that shares a trainable must still name its own compartments after set_ncomp renumbered the rows (shared with C13/C19)
     from . import c13 as _c13
@@ -634,6 +637,101 @@ def _pair(repo, col):
             want = 0 if s.key.name == B else 1
             col.check(i == want, R, fi, f"delete_trainables: {s.key.name} takes element {want} of the filter result",
                       "(indices, params) order", f"{s.key.name} = element {i}", node=s.node)
+
+
+def view_trainables(repo, col, R):
+    """What a view shows and what a view deletes are the two halves of ONE split of the base's trainables (`_filter_trainables`):
+    `_set_trainables_in_view` takes the half in view, `view.delete_trainables()` leaves the base with the half NOT in view, and the
+    base's count goes down by the number the view held."""
+    ft = repo.method("View", "_filter_trainables")
+    pn = [p_ for p_ in ft.params if p_ != "self"]
+    dflt = None
+    if pn and ft.node.args.defaults:
+        d = ft.node.args.defaults[-1]
+        dflt = d.value if isinstance(d, ast.Constant) else None
+    if len(pn) != 1:
+        raise AnalysisError("_filter_trainables: expected one selector parameter")
+
+    def which(fi, only_guarded):
+        ex = idx.expander(repo, fi)
+        out = []
+        for s_ in ex.stores:
+            if s_.kind == "attr" and s_.key.name in ("trainable_params", "indices_set_by_trainables"):
+                c = T.find(s_.value, lambda x: x.op == "mcall" and x.name == "_filter_trainables")
+                if c is None:
+                    continue
+                a = c.kw.get(pn[0]) or (c.args[1] if len(c.args) > 1 else None)
+                v = dflt if a is None else (a.name if a.op == "const" else "?")
+                out.append((s_, v))
+        return out
+    fi = repo.method("View", "_set_trainables_in_view")
+    got = which(fi, False)
+    if not got:
+        col.unk(R, fi, "a view shows the trainables in view", "no store fed by _filter_trainables", node=fi.node)
+    for s_, v in got:
+        col.add(R, fi, f"a view shows the trainables IN view ({s_.key.name})", "DISCHARGED" if v is True else ("VIOLATED" if v is False else "UNDECIDED"),
+                f"_filter_trainables({pn[0]}={v})", node=s_.node)
+    fi = repo.method("Module", "delete_trainables")
+    got = which(fi, True)
+    if not got:
+        col.unk(R, fi, "view.delete_trainables() leaves the base with the trainables NOT in view", "no store fed by _filter_trainables", node=fi.node)
+    for s_, v in got:
+        col.add(R, fi, f"view.delete_trainables() leaves the base with the trainables NOT in view ({s_.key.name})",
+                "DISCHARGED" if v is False else ("VIOLATED" if v is True else "UNDECIDED"),
+                f"_filter_trainables({pn[0]}={v})" + ("" if v is False else ": the trainables of the view are KEPT and all others are deleted"), node=s_.node)
+    ex = idx.expander(repo, fi)
+    cnt = [s_ for s_ in ex.stores if s_.kind == "attr" and s_.key.name == "num_trainable_params" and s_.base.op == "attr" and s_.base.name == "base"
+           and not (s_.value.op == "const")]
+    for s_ in cnt:
+        v = s_.value
+        own = lambda t: t.op == "attr" and t.name == "num_trainable_params" and t.args[0].op == "param"
+        base = lambda t: t.op == "attr" and t.name == "num_trainable_params" and t.args[0].op == "attr" and t.args[0].name == "base"
+        ok = v.op == "binop" and v.name == "-" and base(v.args[0]) and own(v.args[1])
+        col.check(ok, R, fi, "the base's number of trainable parameters goes down by the view's", "base.n - view.n",
+                  f"the count becomes {v.short(80)}", node=s_.node)
+    if not cnt:
+        col.unk(R, fi, "the base's number of trainable parameters goes down by the view's", "no count update found", node=fi.node)
+
+
+def filter_rows(repo, col, R):
+    """_filter_trainables splits every trainable (an index array with one row per parameter value, and the values) into rows that are
+    completely / partly on the wanted side.  The two result lists are built by appending in lockstep; the k-th piece of the values and
+    the k-th piece of the indices must be cut with the SAME row mask, and the masks must be disjoint (a row listed twice becomes two
+    parameters)."""
+    fi = repo.method("View", "_filter_trainables")
+    ex = idx.expander(repo, fi)
+    direct = lambda t: t.op == "item" and t.args and t.args[0].op == "elem"
+    seqs = {}
+    for s_ in ex.stores:
+        if s_.kind == "mcall" and s_.key.name == "append" and isinstance(s_.node, ast.Call) and isinstance(s_.node.func, ast.Attribute):
+            arg = s_.value.args[-1]
+            sel = next((x for x in arg.walk() if x.op == "sub" and direct(x.args[0])), None)
+            if sel is None:
+                continue
+            # which of the two zipped lists the piece is cut from: position of the element in the loop's zip
+            src = sel.args[0]
+            while not (src.op == "item" and src.args[0].op == "elem" and src.args[0].args[0].op == "call" and src.args[0].args[0].name == "zip"):
+                nxt = next((a for a in src.args if T.find(a, lambda y: y.op == "call" and y.name == "zip") is not None), None)
+                if nxt is None:
+                    break
+                src = nxt
+            pos = src.name if src.op == "item" else None
+            seqs.setdefault((unparse(s_.node.func.value), pos), []).append((sel.args[1], s_))
+    if len(seqs) != 2 or any(pos is None for _n, pos in seqs):
+        col.unk(R, fi, "_filter_trainables: values and indices are cut with the same row masks", f"accumulators {sorted(str(k) for k in seqs)} not recognised", node=fi.node)
+        return
+    (ka, a), (kb, b) = sorted(seqs.items(), key=lambda kv: str(kv[0][1]))
+    same = len(a) == len(b) and all(x[0].key() == y[0].key() for x, y in zip(a, b))
+    bad = next((y[1] for x, y in zip(a, b) if x[0].key() != y[0].key()), a[0][1] if a else None)
+    col.check(same, R, fi, "_filter_trainables: the k-th piece of the values and the k-th piece of the indices are cut with the same row mask",
+              f"{len(a)} pieces each", "the pieces appended to the two result lists are cut with different row masks: values and indices of a trainable no "
+              "longer correspond", node=bad.node if bad is not None else fi.node)
+    masks = [m for m, _s in a]
+    if len(masks) >= 2:
+        inv = lambda t, m: T.find(t, lambda y: y.op == "unary" and y.name == "Invert" and y.args[0].key() == m.key()) is not None
+        disjoint = all(inv(masks[j], masks[i]) or inv(masks[i], masks[j]) for i in range(len(masks)) for j in range(i + 1, len(masks)))
+        col.check(disjoint, R, fi, "_filter_trainables: the row masks are disjoint", "second mask excludes the first",
+                  "the masks overlap: a row that is completely in view is listed twice and becomes two trainable parameters", node=a[1][1].node)
 
 
 def _tojax(repo, col):
